@@ -93,6 +93,41 @@ def run(F, R, tier):
                 % (short, sorted(secret_r), sorted(ids_r)),
                 witness={"site": what, "secret": sorted(map(str, secret)), "id": sorted(map(str, ids))})
     R.floor("C10.R1", len(sites), 5, "signing sites (HRS, get_goalstate, get_shared_config, get_imds_instance_info, attest_key)")
+    # every snapshot source used at a signing site must itself be ONE read of the actor state
+    sources = set()
+    for fid, owner, bi, B, secret, ids, what in sites:
+        for s in secret | ids:
+            if s[0] == "call" and "KeyKeeperSharedState::" in s[1]:
+                sources.add(s[1])
+    PRIM = KW + "KeyKeeperSharedState::get_key"
+    for src in sorted(sources):
+        body = F.body_of(src)
+        if body is None:
+            R.fail("C10.R1", "C10.R1:%s:snapshot-source-missing" % src, "-", "anchor-missing=%s" % src)
+            continue
+        R.touched(body["id"])
+        Bs = mir.Body(body, F)
+        events = set()
+        for o in Bs.origins({"l": 0, "p": []}, deep=True):
+            if o[0] == "call":
+                events.add((q.base_name(o[1]), o[2]))
+        reads = [(c[0], q.base_name(c[2] or c[1])) for c in Bs.calls if c[1] != mir.POLL and "KeyKeeperSharedState::get" in q.base_name(c[2] or c[1] or "")]
+        ok = len(events) == 1 and next(iter(events))[0] == PRIM and len(reads) == 1
+        R.check(ok, "C10.R1", "C10.R1:%s:one-round-trip" % src, "%s:%s" % (body["file"], body["line"]),
+                "%s derives everything it returns from one get_key() round-trip" % src.rsplit("::", 1)[-1],
+                "%s assembles its result from %d reads of the key state (%s): the key keeper can replace the key between them, "
+                "so callers pair the id of one key with the secret of another" % (src.rsplit("::", 1)[-1], len(reads), sorted(r[1].rsplit("::", 1)[-1] for r in reads)))
+    prim = F.body_of(PRIM)
+    if prim:
+        Bp = mir.Body(prim, F)
+        sends = [c for c in Bp.calls if q.ends(c[2] or c[1] or "", "mpsc::Sender::send")]
+        variants = set()
+        for b in Bp.blocks:
+            for s in b["stmts"]:
+                if s["k"] == "assign" and s["rv"]["k"] == "agg" and s["rv"].get("adt") == KW + "KeyKeeperAction":
+                    variants.add(s["rv"]["variant"])
+        R.check(len(sends) == 1 and variants == {"GetKey"}, "C10.R1", "C10.R1:%s:primitive" % PRIM, "%s:%s" % (prim["file"], prim["line"]),
+                "get_key() is one GetKey message round-trip", "get_key sends %s (%d sends)" % (sorted(variants), len(sends)))
 
     # ------------------------------------------------------------------ R2
     act = F.fns.get(KW + "KeyKeeperSharedState::start_new::{closure#0}")
